@@ -22,7 +22,8 @@ from lib import gz, gtext, glist, gbool, gopt, gpair
 THEOREMS = ['C15_invariants_hold', 'C15_invariants_decidable', 'C15_derivation_returns_new_class',
             'C15_frame_derivation', 'C15_frame_step', 'C15_frame_history', 'C15_frame_derivations',
             'C15_evolution_records', 'C15_propagates', 'C15_fresh_simple', 'C15_fresh_complex',
-            'C15_mandatory_is_mandatory', 'C15_array_shape',
+            'C15_mandatory_is_mandatory', 'C15_array_shape', 'C15_protocols_untouched',
+            'C15_protocols_untouched_history', 'C15_call_keeps_encoding',
             'C15_customize_keeps_fields', 'C15_customize_keeps_order', 'C15_fresh_decimal_keywords',
             'C15_order_append', 'C15_order_insert', 'C15_order_declared', 'C15_order_flat',
             'C15_order_parents_first', 'C15_order_flat_distinct', 'C15_odict_keys']
@@ -35,14 +36,21 @@ KEY = {'nillable': 0, 'nullable': 0, 'min_occurs': 1, 'max_occurs': 2, 'default'
        'exc': 13, 'sub_name': 14, 'sub_ns': 15, 'total_digits': 16, 'fraction_digits': 17,
        'exc_table': 18, 'exc_db': 19, '_explicit_type_name': 20, 'type_name': 21, 'min_bound': 22,
        'max_bound': 23, 'read_only': 24, 'validate_freq': 25, 'not_wrapped': 26, 'exc_interface': 27,
-       'format': 28, 'empty_is_none': 29, 'wsdl_part_name': 30, '_foo': -1, '_variants': -2}
+       'format': 28, 'empty_is_none': 29, 'wsdl_part_name': 30, 'encoding': 31, 'prot': 32, 'protocol': 33, 'p': 34,
+       '_foo': -1, '_variants': -2}
 # keys observed by Model.obs_keys, with the Python name they are read through
 OBS = [(0, 'nillable'), (1, 'min_occurs'), (2, 'max_occurs'), (3, 'default'), (4, 'ge'), (5, 'gt'), (6, 'le'),
        (7, 'lt'), (8, 'min_len'), (9, 'max_len'), (10, 'pattern'), (11, 'values'), (12, 'max_str_len'),
        (13, 'exc'), (14, 'sub_name'), (15, 'sub_ns'), (16, 'total_digits'), (17, 'fraction_digits'),
        (18, 'exc_table'), (19, 'exc_db'), (20, '_explicit_type_name'), (22, 'min_bound'), (23, 'max_bound'),
        (24, 'read_only'), (25, 'validate_freq'), (26, 'not_wrapped'), (27, 'exc_interface'), (28, 'format'),
-       (29, 'empty_is_none'), (30, 'wsdl_part_name')]
+       (29, 'empty_is_none'), (30, 'wsdl_part_name'), (31, 'encoding'), (32, 'prot')]
+# protocols that may be passed as prot= / protocol= / p=: user-defined ProtocolBase subclasses that declare
+# type_attrs (defaults merged into every derivation made with them); index -> declared type_attrs
+PROT_DECL = [[('min_occurs', 1)], [('sub_name', 'viaprot'), ('nillable', False)], []]
+PROTS = []          # the long-lived instances, made by S()
+ENCODINGS = {'hex': 'HEX', 'hexBinary': 'HEX', 'base64': 'BASE64', 'base64Binary': 'BASE64',
+             'urlsafe_base64': 'URLSAFE_BASE64', None: 'USE_DEFAULT'}
 DEPTH = 4
 INT_PROBES = [None, -1, 0, 1, 5, 10, 100]
 LEN_PROBES = [None, 0, 1, 3, 10, 13, 2000]
@@ -70,6 +78,17 @@ def S():
     ns.ComplexModelBase, ns.ModelBase, ns.SimpleModel = cx.ComplexModelBase, mb.ModelBase, mb.SimpleModel
     ns.Integer, ns.Unicode, ns.Boolean, ns.Integer32, ns.Decimal = pr.Integer, pr.Unicode, pr.Boolean, pr.Integer32, pr.Decimal
     ns.ByteArray = ByteArray
+    from spyne.model import binary
+    from spyne.protocol import ProtocolBase
+    from spyne.protocol.json import JsonDocument
+    ns.binary, ns.ProtocolBase, ns.JsonDocument = binary, ProtocolBase, JsonDocument
+    if not PROTS:
+        for i, decl in enumerate(PROT_DECL):
+            pc = type('C15Prot%d' % i, (ProtocolBase,), {'type_attrs': dict(decl)})
+            inst = pc()
+            inst._c15_index = i
+            PROTS.append(inst)
+    ns.prots = PROTS
     return ns
 
 
@@ -90,6 +109,8 @@ def dec_val(v):
             return -D_INF
         if 'ints' in v:
             return list(v['ints'])
+        if 'prot' in v:
+            return PROTS[v['prot']]
         raise ValueError(v)
     return v
 
@@ -116,6 +137,10 @@ def to_aval(v):
         return ('ints', list(v))
     if isinstance(v, (set, frozenset)) and len(v) == 0:
         return ('emptyset',)
+    if hasattr(v, '_c15_index'):
+        return ('int', v._c15_index)                  # a protocol object: its index in Model.protos
+    if isinstance(v, type) and v.__name__.startswith('BINARY_ENCODING_'):
+        return ('str', v.__name__[len('BINARY_ENCODING_'):])
     raise Unmodelled('attribute value %r' % (v,))
 
 def g_aval(a):
@@ -140,6 +165,8 @@ def g_op(op):
     t = op[0]
     if t == 'cust':
         _, h, kw, ca, caa, ne, style = op
+        if style == 'call' and ca is None and caa is None and ne is None:
+            return '(OCall %s %s)' % (gz(h), g_kw(kw))          # T(kw) on a primitive: SimpleModel/ByteArray.__new__
         return '(OCustomize %s %s %s %s %s)' % (gz(h), g_kw(kw), gopt(ca, g_ca), gopt(caa, g_kw), gopt(ne, g_ca))
     if t == 'array':
         return '(OArray %s %s %s)' % (gz(op[1]), gz(op[2]), g_kw(op[3]))
@@ -268,7 +295,58 @@ def deep(ns, cls, depth=DEPTH):
             cls.__orig__ is not None, tuple(all_attrs(cls)), canon(cls.Annotations.doc),
             deep(ns, cls.__extends__, depth - 1),
             tuple((k, deep(ns, v, depth - 1)) for k, v in own_fields(ns, cls)),
-            tuple(cls.get_flat_type_info(cls).keys()) if issubclass(cls, ns.ComplexModelBase) else ())
+            tuple(cls.get_flat_type_info(cls).keys()) if issubclass(cls, ns.ComplexModelBase) else (),
+            alias_tables(ns, cls))
+
+def alias_key(k, v):
+    """SPEC: the key, other than its name, under which a field is written and must be read"""
+    sub_ns, sub_name = v.Attributes.sub_ns, v.Attributes.sub_name
+    if sub_ns is None and sub_name is None:
+        return None
+    if sub_ns is not None and sub_name is not None:
+        return '{%s}%s' % (sub_ns, sub_name)
+    if sub_ns is None:
+        return sub_name
+    return '{%s}%s' % (sub_ns, k)
+
+def alias_tables(ns, cls):
+    """the alias tables as the protocols read them: get_flat_type_info(cls).alt (dict documents, XML) and
+    cls._type_info_alt, as (alias, field name) pairs"""
+    if not issubclass(cls, ns.ComplexModelBase):
+        return ()
+    flat = cls.get_flat_type_info(cls)
+    return (tuple(sorted((key, kv[1]) for key, kv in flat.alt.items())),
+            tuple(sorted((key, kv[1]) for key, kv in cls._type_info_alt.items())))
+
+def alias_failures(ns, cls):
+    """every field that is written under an alias is read under it, by the type the class has for it,
+    and nothing else is an alias"""
+    flat = cls.get_flat_type_info(cls)
+    spec = {}
+    for k, v in flat.items():
+        key = alias_key(k, v)
+        if key is not None:
+            spec[key] = (k, id(v))
+    got = dict((key, (kv[1], id(kv[0]))) for key, kv in flat.alt.items())
+    out = []
+    for key in sorted(set(spec) | set(got)):
+        if key not in got:
+            out.append(('missing', 'field %r is written as %r but the alias table of the flat type info does not know it' % (spec[key][0], key)))
+        elif key not in spec:
+            out.append(('stale', 'the alias table still maps %r to field %r, which is not written under that name' % (key, got[key][0])))
+        elif got[key][0] != spec[key][0]:
+            out.append(('wrong-field', 'alias %r is mapped to field %r, expected %r' % (key, got[key][0], spec[key][0])))
+        elif got[key][1] != spec[key][1]:
+            out.append(('wrong-type', 'alias %r of field %r is mapped to another type than the one the class has for the field' % (key, spec[key][0])))
+    own_keys = [alias_key(k, v) for k, v in cls._type_info.items()]
+    for k, v in cls._type_info.items():
+        key = alias_key(k, v)
+        # (two own fields written under one name: which one is read is the caller's problem, not ours)
+        if key is not None and own_keys.count(key) == 1 and spec.get(key, (None,))[0] == k:
+            e = cls._type_info_alt.get(key)
+            if e is None or e[1] != k or e[0] is not v:
+                out.append(('own-table', 'cls._type_info_alt does not map %r to the own field %r and its type' % (key, k)))
+    return out
 
 def verdicts_of(ns, cls):
     """validation verdicts on the probe values (None when the validator raises)"""
@@ -318,7 +396,7 @@ def apply_op(ns, pool, op, names):
                 kwargs['child_attrs_all'] = build_kwargs(caa)
             if ne is not None:
                 kwargs['child_attrs_noexc'] = dict((k, build_kwargs(v)) for k, v in ne)
-            before = copy.deepcopy(kwargs)
+            before = dict((k, v if hasattr(v, '_c15_index') else copy.deepcopy(v)) for k, v in kwargs.items())
             if style == 'call' and issubclass(cls, ns.SimpleModel):
                 new = cls(**kwargs)
             elif style == 'index':
@@ -356,15 +434,30 @@ def apply_op(ns, pool, op, names):
 
 
 # ------------------------------------------------------------------ the direct oracle
-def requested(ns, cls, kw):
+def requested(ns, cls, kw, style=None):
     """SPEC of 'the requested constraints': Python attribute name -> value the new class must show,
-    for a customize(**kw) of cls (aliases and documented normalisations only)"""
+    for a customize(**kw) of cls, or the call cls(**kw) when style == 'call' (aliases and documented
+    normalisations only).  A protocol passed as prot= / protocol= / p= contributes its DECLARED
+    type_attrs (PROT_DECL: what the caller wrote, not what the object says now) under the keywords."""
+    d = dict((k, dec_val(v)) for k, v in kw)
+    if style == 'call' and issubclass(cls, ns.ByteArray) and 'encoding' in d and d['encoding'] in ENCODINGS:
+        d['encoding'] = getattr(ns.binary, 'BINARY_ENCODING_' + ENCODINGS[d['encoding']])
+    prot = None
+    for name in ('protocol', 'prot', 'p'):
+        if d.get(name) is not None:
+            prot = d[name]
+            break
+    if prot is not None and PROT_DECL[prot._c15_index]:
+        merged = dict(PROT_DECL[prot._c15_index])
+        merged.update(d)
+        d = merged
     req = {}
-    for k, v in kw:
-        v = dec_val(v)
+    for k, v in d.items():
         if k.startswith('_'):
             continue
-        if k == 'type_name':
+        if k in ('prot', 'protocol', 'p'):
+            req['prot'] = v
+        elif k == 'type_name':
             req['_explicit_type_name'] = True
         elif k in ('nillable', 'nullable'):
             req['nillable'] = v
@@ -386,13 +479,13 @@ def requested(ns, cls, kw):
                 req['max_str_len'] = d['total_digits'] + 2      # sign and decimal separator
     return req
 
-def fresh_failures(ns, old, old_attrs, new, kw, site):
+def fresh_failures(ns, old, old_attrs, new, kw, site, style=None):
     """'returns a new type carrying exactly the requested constraints' over the original's"""
     fails = []
     if new is old:
         fails.append((site + '|same-object', 'the derivation returned its argument itself'))
         return fails
-    req = dict((k, canon(v)) for k, v in requested(ns, old, kw).items())
+    req = dict((k, canon(v)) for k, v in requested(ns, old, kw, style).items())
     new_attrs = dict(all_attrs(new))
     old_attrs = dict(old_attrs)
     old_attrs['_explicit_type_name'] = canon(False)
@@ -430,6 +523,44 @@ class World(object):
         self.names = 0
         self.check = check
         self.fail_keys = []
+        # two protocol instances that live as long as the history (a server's out-protocol): one meets the
+        # classes oldest first, the other newest first
+        self.long_fwd = ns.JsonDocument()
+        self.long_rev = ns.JsonDocument()
+
+    def protocol_data(self):
+        """the caller's protocol objects: type_attrs of each instance and of its class"""
+        return [(sorted((k, canon(v)) for k, v in p.type_attrs.items()),
+                 sorted((k, canon(v)) for k, v in type(p).type_attrs.items())) for p in PROTS]
+
+    def check_protocol_views(self, site, hist):
+        """what a long-lived protocol instance says the fields of a class are (sort_fields: dict documents,
+        csv, html, cloth write in that order) must be what the class says now, whatever else -- the
+        original, another variant, the class before a field was added -- the instance has seen before"""
+        ns, pool = self.ns, self.pool
+        for prot, order, how in ((self.long_fwd, list(range(len(pool))), 'oldest-first'),
+                                 (self.long_rev, list(range(len(pool) - 1, -1, -1)), 'newest-first')):
+            for h in order:
+                C = pool[h]
+                if h < NBASE or not issubclass(C, ns.ComplexModelBase):
+                    continue
+                got = [(k, id(v)) for k, v in prot.sort_fields(C)]
+                exp = [(k, id(v)) for k, v in C.get_flat_type_info(C).items()]
+                if got != exp:
+                    kind = 'field-list' if [k for k, _ in got] != [k for k, _ in exp] else 'field-types'
+                    self.fail('C15|frame|protocol-cache|sort_fields|%s|%s' % (kind, 'after-evolution' if site.startswith(('append', 'insert')) else 'after-derivation'),
+                              'a protocol instance that has seen other classes before (%s) lists the fields of pool class '
+                              '#%d as %r with the types of another class or an older field table; the class has %r' % (
+                                  how, h, [k for k, _ in got], [k for k, _ in exp]), hist)
+                    return
+
+    def check_aliases(self, site, hist):
+        ns = self.ns
+        for h, C in enumerate(self.pool):
+            if h >= NBASE and issubclass(C, ns.ComplexModelBase):
+                for kind, what in alias_failures(ns, C):
+                    self.fail('C15|fresh|alias-table|%s|%s' % (kind, site.split('(')[0]), 'pool class #%d, after %s: %s' % (h, site, what), hist)
+                    return
 
     def snaps(self):
         return [snap(self.ns, c) for c in self.pool]
@@ -463,8 +594,20 @@ class World(object):
         variants_before = [c for c in uni_before.values()
                            if t in ('app', 'ins') and issubclass(c, ns.ComplexModelBase)
                            and c.__orig__ is tgt and tgt.__orig__ is None]
+        prot_before = self.protocol_data()
         r = apply_op(ns, pool, op, self.names)
         after = self.deeps()
+        prot_after = self.protocol_data()
+        decl = [sorted((k, canon(v)) for k, v in d) for d in PROT_DECL]
+        if prot_after != prot_before or [x[0] for x in prot_after] != decl:
+            which = [i for i in range(len(PROTS)) if prot_after[i] != prot_before[i] or prot_after[i][0] != decl[i]]
+            self.fail('C15|frame|%s|caller-protocol-mutated' % site.split('(')[0],
+                      '%s wrote into the type_attrs of the protocol object(s) #%s passed by the caller: declared %r, now %r '
+                      '(every later derivation with that protocol, or protocol class, inherits the leak)' % (
+                          site, which, [decl[i] for i in which], [prot_after[i] for i in which]), hist)
+            for i, d in enumerate(PROT_DECL):          # put the caller's data back: one report per leak
+                type(PROTS[i]).type_attrs = dict(d)
+                PROTS[i].__dict__.pop('type_attrs', None)
         if r[0] == 'exn':
             # an operation that raises must leave every class as it was
             for h, (b, a) in enumerate(zip(before, after)):
@@ -512,7 +655,7 @@ class World(object):
         # ---- fresh
         if t == 'cust':
             _, h, kw, ca, caa, ne, style = op
-            for key, what in fresh_failures(ns, tgt, old_attrs, new, kw, 'C15|fresh|' + site):
+            for key, what in fresh_failures(ns, tgt, old_attrs, new, kw, 'C15|fresh|' + site, style):
                 self.fail(key, what, hist)
             if new.__orig__ is not (tgt.__orig__ or tgt):
                 self.fail('C15|fresh|%s|orig' % site, '__orig__ of the derived class is not the root of its argument', hist)
@@ -582,6 +725,8 @@ class World(object):
                     self.fail('C15|order|flat|%s' % site, 'flat field order of pool class #%d is %r, expected parents '
                               'first then declaration order %r' % (h, got, exp), hist)
                     break
+        self.check_aliases(site, hist)
+        self.check_protocol_views(site, hist)
         return r
 
     def check_child_fields(self, tgt, old_fields, new, ca, caa, ne, site, hist):
@@ -631,7 +776,7 @@ class World(object):
 
 def diff_text(b, a):
     """(short class of the difference, readable detail) between two deep snapshots"""
-    names = ['kind', 'name', 'type_name', 'namespace', 'customized', 'attributes', 'doc', 'extends', 'fields', 'flat']
+    names = ['kind', 'name', 'type_name', 'namespace', 'customized', 'attributes', 'doc', 'extends', 'fields', 'flat', 'aliases']
     for i, n in enumerate(names):
         if b[i] != a[i]:
             if n == 'attributes':
@@ -666,7 +811,7 @@ def gen_kw(rng, ns, cls, small=False):
               ('read_only', lambda: rng.random() < 0.5), ('exc_table', lambda: rng.random() < 0.5),
               ('exc_interface', lambda: rng.random() < 0.3), ('type_name', lambda: rng.choice(['tnA', 'tnB'])),
               ('_foo', lambda: 7), ('_variants', lambda: None), ('wsdl_part_name', lambda: 'part'),
-              ('empty_is_none', lambda: rng.random() < 0.5)]
+              ('empty_is_none', lambda: rng.random() < 0.5), ('sub_ns', lambda: rng.choice(['urn:s1', 'urn:s2']))]
     spec = []
     if k == '(KSimple FDecimal)':
         spec = [('ge', lambda: rng.choice([-5, 0, 1, 5, {'ninf': 1}])), ('gt', lambda: rng.choice([-1, 0, 3, {'ninf': 1}])),
@@ -679,6 +824,8 @@ def gen_kw(rng, ns, cls, small=False):
         spec = [('min_len', lambda: rng.choice([0, 1, 3])), ('max_len', lambda: rng.choice([3, 10, 12, {'inf': 1}])),
                 ('pattern', lambda: rng.choice(['[a-z]+', 'x*', None])), ('default', lambda: rng.choice(['x', 'dflt'])),
                 ('format', lambda: '%s')]
+    elif k == '(KSimple FByteArray)':
+        spec = [('encoding', lambda: rng.choice(['hex', 'base64', 'urlsafe_base64', 'hexBinary', 'base64Binary', None]))]
     elif k in ('KComplex', 'KArray'):
         spec = [('validate_freq', lambda: rng.random() < 0.5), ('not_wrapped', lambda: rng.random() < 0.5)]
     n = rng.choice([0, 1, 1, 2, 2, 3]) if small else rng.choice([0, 1, 2, 2, 3, 4, 5])
@@ -693,6 +840,9 @@ def gen_kw(rng, ns, cls, small=False):
             continue    # the NumberLimitsWarning text uses %d on an infinity: OverflowError (not modelled)
         names.add(name)
         out.append([name, v])
+    if rng.random() < 0.14:
+        # the documented prot= / protocol= / p= keyword with a protocol object of the caller
+        out.insert(rng.randrange(len(out) + 1), [rng.choice(['prot', 'protocol', 'p']), {'prot': rng.randrange(len(PROT_DECL))}])
     return out
 
 def usable_as_field(ns, c):
@@ -712,6 +862,9 @@ def gen_bad_op(rng, ns, world):
     cust_with_fields = [h for h in hs if h >= NBASE and issubclass(pool[h], ns.ComplexModelBase)
                         and not issubclass(pool[h], ns.Array) and pool[h].__orig__ is not None and len(pool[h]._type_info)]
     r = rng.random()
+    if r < 0.1:
+        blobs = [h for h in hs if issubclass(pool[h], ns.ByteArray)]
+        return ['cust', rng.choice(blobs), [['encoding', 'rot13'], ['min_occurs', 1]], None, None, None, 'call']
     if r < 0.2:
         return ['mand', rng.choice([H_ARRAY, H_ITERABLE])]              # Mandatory of an array without a member
     if r < 0.5 and bounded:
@@ -749,8 +902,15 @@ def gen_op(rng, ns, world):
         world.names += 1
         return ['sub', parent, 'K%d' % world.names, [[k, rng.choice(ftypes)] for k in ks]]
     if r < 0.37:
-        h = rng.choice(simple)
-        return ['cust', h, gen_kw(rng, ns, pool[h]), None, None, None, rng.choice(['call', 'customize', 'index'])]
+        h = rng.choice(simple + [x for x in simple if issubclass(pool[x], ns.ByteArray)])
+        kw = gen_kw(rng, ns, pool[h])
+        style = rng.choice(['call', 'customize', 'index'])
+        if issubclass(pool[h], ns.ByteArray):
+            # the encoding keyword belongs to the call syntax (ByteArray.__new__ normalises it)
+            style = rng.choice(['call', 'call', 'call', style])
+            if style != 'call':
+                kw = [x for x in kw if x[0] != 'encoding']
+        return ['cust', h, kw, None, None, None, style]
     if r < 0.60 and cplx:
         h = rng.choice(cplx + plain_cplx)
         cls = pool[h]
@@ -790,7 +950,7 @@ def gen_kw_child(rng, ns, t):
     out, names = [], set()
     for _ in range(rng.choice([1, 1, 2, 3])):
         name, v = rng.choice([('min_occurs', rng.choice([0, 1])), ('max_occurs', rng.choice([1, 3, 'unbounded'])),
-                              ('nillable', rng.random() < 0.5), ('exc', rng.random() < 0.4),
+                              ('nillable', rng.random() < 0.5), ('exc', rng.random() < 0.4), ('sub_ns', 'urn:c'),
                               ('sub_name', rng.choice(['c1', 'c2'])), ('read_only', rng.random() < 0.5),
                               ('type_name', 'ctn')])
         if name not in names:
@@ -802,6 +962,38 @@ def corpus():
     """histories that always run first: theorem witnesses and minimised failures"""
     I, U, B = 3, 4, 5
     return [
+        # prot= / protocol= / p= with a protocol that declares type_attrs: the earlier derivation must not leak
+        # into the protocol, nor into later derivations made with it
+        [['cust', U, [['prot', {'prot': 0}], ['max_len', 3], ['pattern', '[A-Z]+']], None, None, None, 'call'],
+         ['cust', U, [['p', {'prot': 0}]], None, None, None, 'call'],
+         ['cust', I, [['ge', 0], ['protocol', {'prot': 0}]], None, None, None, 'customize'],
+         ['cust', U, [['prot', {'prot': 1}], ['sub_name', 'mine']], None, None, None, 'index'],
+         ['cust', U, [['prot', {'prot': 2}], ['min_len', 1]], None, None, None, 'call'],
+         ['sub', 0, 'F', [['code', NBASE], ['note', NBASE + 1], ['n', NBASE + 2]]],
+         ['cust', NBASE + 5, [['protocol', {'prot': 1}], ['prot', {'prot': 0}]], None, None, None, 'customize']],
+        # the call syntax on an already derived ByteArray keeps its encoding (and type name)
+        [['cust', 8, [['encoding', 'hex']], None, None, None, 'call'], ['cust', NBASE, [['min_occurs', 1]], None, None, None, 'call'],
+         ['cust', NBASE, [['sub_name', 'sum']], None, None, None, 'call'], ['cust', NBASE, [['min_occurs', 1]], None, None, None, 'customize'],
+         ['cust', 8, [['encoding', 'urlsafe_base64'], ['nillable', False]], None, None, None, 'call'],
+         ['cust', NBASE + 4, [['min_occurs', 1], ['encoding', None]], None, None, None, 'call'],
+         ['cust', NBASE + 4, [['encoding', 'base64Binary']], None, None, None, 'call'], ['mand', NBASE + 1],
+         ['array', 1, NBASE + 2, []], ['cust', NBASE, [['encoding', 'rot13']], None, None, None, 'call']],
+        # fields with sub_name / sub_ns: every variant reads what it writes (alias table), also after the
+        # sub_name is changed by child_attrs or a field with an alias is added later
+        [['cust', I, [['sub_name', 'id']], None, None, None, 'call'], ['cust', U, [['sub_name', 'l'], ['sub_ns', 'urn:x']], None, None, None, 'call'],
+         ['cust', U, [['sub_ns', 'urn:y']], None, None, None, 'call'],
+         ['sub', 0, 'Item', [['item_id', NBASE], ['label', NBASE + 1], ['note', U], ['q', NBASE + 2]]],
+         ['sub', NBASE + 3, 'Crate', [['weight', NBASE]]],
+         ['cust', NBASE + 3, [['min_occurs', 1]], None, None, None, 'customize'],
+         ['cust', NBASE + 3, [], [['note', [['sub_name', 'n']]], ['label', [['sub_name', 'lbl']]]], None, None, 'customize'],
+         ['array', 1, NBASE + 3, []], ['mand', NBASE + 3], ['cust', NBASE + 4, [], None, [['sub_name', 'all']], None, 'customize'],
+         ['app', NBASE + 3, 'plan', NBASE + 1], ['ins', NBASE + 4, 0, 'first', NBASE], ['app', NBASE + 3, 'note', NBASE + 1]],
+        # one protocol instance serializes a class, its child_attrs variants and the class again after it
+        # got a new field (sort_fields cache)
+        [['sub', 0, 'Account', [['id', I], ['owner', U], ['token', U], ['plan', U]]],
+         ['cust', NBASE, [], [['token', [['exc', True]]], ['owner', [['sub_name', 'name']]], ['plan', [['default', 'free']]]], None, None, 'customize'],
+         ['array', 1, NBASE + 1, []], ['array', 1, NBASE, []], ['app', NBASE, 'extra', I], ['ins', NBASE + 1, 0, 'lead', U],
+         ['cust', NBASE, [], None, [['min_occurs', 1]], [['id', [['max_occurs', 2]]]], 'customize']],
         # Mandatory of an array must not make the original array's member mandatory
         [['array', 1, I, []], ['mand', NBASE], ['mand', NBASE]],
         [['sub', 0, 'K1', [['a', I]]], ['array', 1, NBASE, []], ['array', 1, NBASE + 1, []], ['mand', NBASE + 2]],
@@ -874,7 +1066,9 @@ def run_history(ns, ops_or_gen, check=None, n_ops=None, rng=None):
             and (c.__orig__ or c) in (ns.Integer, ns.Unicode, ns.Decimal)]
     flats = [(h, list(c.get_flat_type_info(c).keys())) for h, c in enumerate(w.pool)
              if h >= NBASE and issubclass(c, ns.ComplexModelBase)]
-    return ops, rec, verd, flats, w
+    alts = [(h, sorted((key, kv[1]) for key, kv in c.get_flat_type_info(c).alt.items())) for h, c in enumerate(w.pool)
+            if h >= NBASE and issubclass(c, ns.ComplexModelBase)]
+    return ops, rec, verd, flats, alts, w
 
 def xml_modifier_frame(ns, w, hist):
     """oracle only (XmlAttribute / XmlData are not in the model): wrapping a pool class in an Xml
@@ -903,7 +1097,7 @@ def xml_modifier_frame(ns, w, hist):
             break
 
 
-def g_case(ops, rec, verd, flats):
+def g_case(ops, rec, verd, flats, alts):
     steps = []
     for op, r in zip(ops, rec):
         if r[0] == 'exn':
@@ -913,7 +1107,8 @@ def g_case(ops, rec, verd, flats):
         steps.append('(%s, %s)' % (g_op(op), e))
     gv = glist(['(%s, %s)' % (gz(h), glist(['None' if x is None else '(Some %s)' % gbool(x) for x in l])) for h, l in verd])
     gf = glist(['(%s, %s)' % (gz(h), glist([gtext(k) for k in l])) for h, l in flats])
-    return '(%s, %s, %s)' % (glist(steps), gv, gf)
+    ga = glist(['(%s, %s)' % (gz(h), glist(['(%s, %s)' % (gtext(a), gtext(k)) for a, k in l])) for h, l in alts])
+    return '(%s, %s, %s, %s)' % (glist(steps), gv, gf, ga)
 
 def g_init_store(ns):
     """the initial store: the base classes with every observed attribute resolved"""
@@ -923,8 +1118,9 @@ def g_init_store(ns):
         recs.append('(mkcls %s None %s %s None (Some None) [])' % (kind_of(ns, c), attrs, g_tn(tname_of(ns, c))))
         if c.__orig__ is not None or c.__extends__ is not None or own_fields(ns, c):
             raise Unmodelled('base class %r is not a root' % c)
-    return 'Definition s0 : store := mkstore %s [] [] [].\nDefinition p0 : pool := %s.\n' % (
-        glist(recs), glist([gz(i) for i in range(NBASE)]))
+    protos = glist(['(%s, %s)' % (gz(i), g_kw(d)) for i, d in enumerate(PROT_DECL)])
+    return 'Definition s0 : store := mkstore %s [] [] [] %s.\nDefinition p0 : pool := %s.\n' % (
+        glist(recs), protos, glist([gz(i) for i in range(NBASE)]))
 
 
 # ------------------------------------------------------------------ schema / protocol output (in a forked child)
@@ -1166,10 +1362,13 @@ def run(check):
     ns = S()
     check.rule = ('a case is one history (3-12 operations: class statement, primitive customization by call / '
                   'customize / [], customize with child_attrs / child_attrs_all / child_attrs_noexc, Array / Iterable, '
-                  'Mandatory, append_field, insert_field) over a pool that starts with ComplexModel, Array, Iterable, '
+                  'Mandatory, append_field, insert_field; keywords include prot= / protocol= / p= with protocol objects that '
+                  'declare type_attrs, ByteArray encodings through the call syntax T(kw), fields with sub_name / sub_ns) over a '
+                  'pool that starts with ComplexModel, Array, Iterable, '
                   'Integer, Unicode, Boolean, Integer32, Decimal, ByteArray; after EVERY step the snapshot (kind, type '
-                  'name, customized?, 30 resolved attributes, __extends__, ordered fields; depth 4) of EVERY pool class '
-                  'is compared with the model; distinct by the whole history')
+                  'name, customized?, 32 resolved attributes, __extends__, ordered fields; depth 4) of EVERY pool class '
+                  'is compared with the model, and at the end the verdicts, flat order and alias table (sub_name / sub_ns -> '
+                  'field) of every complex class; distinct by the whole history')
     check.extra['proved'] = (
         'over the class-store model coq/C15/Model.v (spec notions in coq/C15/Spec.v), for ALL stores satisfying inv '
         '(well-formed + registry of variants complete; checked of the initial pool by evaluating wfb/completeb on every run, '
@@ -1194,12 +1393,15 @@ def run(check):
     ]
     check.assumptions = [
         'attribute values are None, bool, int, +-inf, str, list of int, empty set; Python == on them is structural',
-        'keyword sets reach only the modelled branches of _s_customize (no parser/sanitizer/pk/fk/values_dict/prot/store_as, '
+        'keyword sets reach only the modelled branches of _s_customize (no parser/sanitizer/pk/fk/values_dict/store_as, '
         'no nested child_attrs, no Attributes.order, no SelfReference/XmlData/XmlAttribute fields, no sub-classing of a customized '
         'class without fields, no field whose type is the class it is added to or one of its variants, no child_attrs on a '
         'primitive): the model answers RBad there, the theorems exclude RBad, the generator never produces it',
         'the walks along base classes use fuel 48 (histories build chains of at most 14 classes); C15_fresh_* are stated for every fuel',
         'an operation that raises leaves every class unchanged (checked by the oracle on the implementation)',
+        'protocol objects passed as prot= / protocol= / p= are instances of three user-defined ProtocolBase subclasses whose '
+        'declared type_attrs are the table Model.protos; what a long-lived protocol instance lists as the fields of a class '
+        '(sort_fields) is protocol-side state outside the model: observed by the oracle after every step, oldest-first and newest-first',
         'namespaces (resolve_namespace) and the anonymous type names filled in while an interface is built are outside the model; '
         'the oracle snapshots __namespace__, the schema rendering runs in forked children',
     ]
@@ -1222,14 +1424,14 @@ def run(check):
     kinds = {}
     for tag, ops in hists:
         if tag == 'corpus':
-            ops, rec, verd, flats, w = run_history(ns, ops, check)
+            ops, rec, verd, flats, alts, w = run_history(ns, ops, check)
         else:
-            ops, rec, verd, flats, w = run_history(ns, None, check, n_ops=rng.choice([3, 5, 6, 8, 10, 12]), rng=rng)
+            ops, rec, verd, flats, alts, w = run_history(ns, None, check, n_ops=rng.choice([3, 5, 6, 8, 10, 12]), rng=rng)
         all_ops.append(ops)
         for op, r in zip(ops, rec):
             kinds[op[0] + ':' + r[0]] = kinds.get(op[0] + ':' + r[0], 0) + 1
         check.count(json.dumps(ops, sort_keys=True))
-        cases.append((g_case(ops, rec, verd, flats), json.dumps(ops)))
+        cases.append((g_case(ops, rec, verd, flats, alts), json.dumps(ops)))
         if tag == 'gen':
             check.sample({'history': ops[:4], 'outcomes': [r[0] for r in rec[:4]]}, limit=4)
     check.extra['operations'] = kinds
